@@ -337,6 +337,8 @@ def storm(rng, source, world, cfg, n=300, handler=None):
     qs = []
     for _ in range(n):
         t = start + pd.Timedelta(days=rng.randint(-40, 400), minutes=rng.choice([0, 870, 1260, rng.randint(0, 1439)]))
+        if n > 1000:
+            t = start + pd.Timedelta(days=rng.randint(-10, 60), seconds=rng.randint(0, 86399))     # (almost) all distinct
         qs.append((t, rng.choice(assets), rng.choice(['get_bid', 'get_ask'])))
     rng.shuffle(qs)
     for t, a, side in qs:
@@ -406,7 +408,9 @@ def run_c18_case(case, acc):
                 other['universe'] = {'kind': 'static', 'assets': ['EQ:' + s_ for s_ in cfg['market']['assets']]}
                 other['alpha'] = {'kind': 'sma_trend', 'fast': 2, 'slow': 4}
             sesswl.run_session(other, world, shared=shared)
-            storm(rng, shared['source'], world, cfg, handler=shared.get('handler'))
+            storm(rng, shared['source'], world, cfg, n=case.get('big_storm', 300), handler=shared.get('handler'))
+            if case.get('big_storm'):
+                acc.count('C18:runs_after_a_storm_of_40000_lookups')
             d3, r3, _ = one_digest(cfg, shared=shared, world=world)
             acc.count('C18:runs', 2)
             info = getattr(shared['source'].get_bid, 'cache_info', None)
@@ -489,6 +493,71 @@ def run_c18_case(case, acc):
         return None, None
 
 
+def broker_script(rng):
+    """A hand-driven backtest: subscriptions, orders with library-generated identifiers (several per asset and side in one
+    queue, queued while the exchange is closed) and clock updates."""
+    assets = ['EQ:AAA', 'EQ:BBB', 'EQ:CCC'][:rng.randint(1, 3)]
+    ports = ['p1', 'p2'][:rng.randint(1, 2)]
+    ops = [('create', p) for p in ports] + [('fund', p, float(rng.choice([1e6, 5e6]))) for p in ports]
+    t = pd.Timestamp('2022-03-07 09:00:00', tz='UTC')
+    for day in range(rng.randint(2, 5)):
+        ops.append(('update', str(t), {a: round(10 ** rng.uniform(0.5, 2.5), rng.choice([2, 4])) for a in assets}))
+        for _ in range(rng.randint(2, 7)):
+            ops.append(('order', rng.choice(ports), rng.choice(assets), rng.choice([1, 1, -1]) * rng.randint(1, 900)))
+        t2 = t + pd.Timedelta(hours=6)
+        ops.append(('update', str(t2), {a: round(10 ** rng.uniform(0.5, 2.5), rng.choice([2, 4])) for a in assets}))
+        t = t + pd.Timedelta(days=1)
+    return ops
+
+
+def run_broker_script(ops):
+    from qstrader.broker.simulated_broker import SimulatedBroker
+    from qstrader.exchange.simulated_exchange import SimulatedExchange
+    from qstrader.broker.fee_model.percent_fee_model import PercentFeeModel
+    from qstrader.execution.order import Order
+    from qsmon import brokerwl as bw
+    book = bw.QuoteBook()
+    t0 = pd.Timestamp('2022-03-07 08:00:00', tz='UTC')
+    broker = SimulatedBroker(t0, SimulatedExchange(t0), book, initial_funds=2e7,
+                             fee_model=PercentFeeModel(commission_pct=0.001, tax_pct=0.0))
+    for op in ops:
+        if op[0] == 'create':
+            broker.create_portfolio(op[1])
+        elif op[0] == 'fund':
+            broker.subscribe_funds_to_portfolio(op[1], op[2])
+        elif op[0] == 'order':
+            broker.submit_order(op[1], Order(broker.current_dt, op[2], op[3]))
+        else:
+            t = pd.Timestamp(op[1])
+            book.now = t
+            for a, p in op[2].items():
+                book.set(a, p, p + 0.01)
+            broker.update(t)
+    out = {}
+    for pid, p in sorted(broker.portfolios.items()):
+        out[pid] = {'cash': float(p.cash).hex(), 'equity': float(p.total_equity).hex(),
+                    'history': [[str(e.dt), e.type, e.description.split(' ', 1)[0], float(e.debit).hex(), float(e.credit).hex(),
+                                 float(e.balance).hex()] for e in p.history],
+                    'holdings': {a: [d['quantity'], float(d['market_value']).hex()] for a, d in sorted(p.portfolio_to_dict().items())}}
+    return out
+
+
+def broker_level_case(rng, acc):
+    ops = broker_script(rng)
+    a = run_broker_script(ops)
+    for rep in range(3):
+        b = run_broker_script(ops)
+        acc.count('C18:hand_driven_runs')
+        if a != b:
+            pid = next(p for p in a if a[p] != b[p])
+            ha, hb = a[pid]['history'], b[pid]['history']
+            i = next((k for k in range(min(len(ha), len(hb))) if ha[k] != hb[k]), min(len(ha), len(hb)))
+            raise Violation('C18', 'hand-driven/history', 'the same sequence of subscriptions, orders and clock updates run twice in '
+                            'one process gives different accounts for %s: history entry #%d %s vs %s'
+                            % (pid, i, ha[i:i + 1], hb[i:i + 1]), {'mode': 'hand-driven'})
+    acc.count('C18:hand_driven_scripts')
+
+
 def shard_c18(spec, acc):
     rng = random.Random(spec['rng'])
     t_end = time.time() + spec['budget_s']
@@ -496,8 +565,19 @@ def shard_c18(spec, acc):
         if time.time() > t_end:
             acc.count('stopped_on_time_budget')
             break
+        for _ in range(6):
+            r3 = random.Random(rng.randint(0, 2 ** 31))
+            seed3 = r3.getstate()
+            try:
+                broker_level_case(r3, acc)
+            except Violation as v:
+                r4 = random.Random()
+                r4.setstate(seed3)
+                acc.violation(v, {'hand_driven': broker_script(r4)})
         cfg = gen_c18_cfg(rng, 45 if spec['tier'] == 'quick' else 120)
         case = {'cfg': cfg, 'hashseeds': spec['hashseeds'], 'seed': rng.randint(0, 10 ** 6)}
+        if i % 12 == 1:
+            case['big_storm'] = 40000        # more distinct lookups than a bounded price memo is likely to hold
         r1, tr1 = run_c18_case(case, acc)
         acc.evaluations += 1
         acc.count('cases:alpha:%s' % cfg['alpha']['kind'])
